@@ -21,7 +21,7 @@ CFG = {
                   "faithful model (alignment_refuted) and reproduced on the implementation (known finding gltf:unaligned-view)",
     "technique": "Coq proof (invariant over the writer's step function, induction over model lists) + vm_compute correspondence check",
     "design_ref": "DESIGN.md §4 C06, §5 entries 7, 8, 20",
-    "n_quick": 220, "n_thorough": 3000,
+    "n_quick": 220, "n_thorough": 2000,
     "rule": "16 fixed scenes (empty, one triangle, unaligned second mesh, negative-only non-float32 coordinates, shared mesh "
             "pointer x material, materials equal by value / differing only in normal or occlusion texture, instances + TRS + "
             "lights, JOINTS_0 bytes, refused alphaCutoff, 65535/65536/65537 vertices, NaN and -0, texture transform), 4 (24) "
